@@ -43,7 +43,9 @@ def _hash_tree(root, h, skip_dirs=("target", ".git", ".work", "out", "evidence",
 def tree_key(unit):
     h = hashlib.sha256()
     _hash_tree(REPO, h)
-    _hash_tree(os.path.join(VERIF, "fixtures"), h, skip_files=("Cargo.lock",))
+    fxdir = os.path.join(VERIF, "fixtures", unit)
+    if os.path.isdir(fxdir):
+        _hash_tree(fxdir, h, skip_files=("Cargo.lock",))
     with open(DRIVER, "rb") as fh:
         h.update(fh.read())
     h.update(unit.encode())
@@ -83,7 +85,7 @@ def _units():
         for d in sorted(os.listdir(fx)):
             if os.path.isfile(os.path.join(fx, d, "Cargo.toml")):
                 u[d] = [dict(cwd=os.path.join(fx, d), args=[], crates=d + ",pest_generator", tag="", flags="",
-                             fixture=True, may_fail=(d == "fx_rawrep"))]
+                             fixture=True, may_fail=(d in ("fx_rawrep", "fx_boxing", "fx_options", "fx_options_q")))]
     return u
 
 
